@@ -118,11 +118,15 @@ PROPS = {
     },
     "C15": {
         "lean_modules": ["TableauVerif.Props.C15"],
-        "oracles": ["c15.append", "c15.versions", "c15.known"],
+        "oracles": ["c15.append", "c15.versions", "c15.known", "c14.merge"],
         "streams": [
             ("spec.C15.append", 3000, 150000),
             ("corr.protogen.parseHeader", 3000, 100000),
             ("e2e.C15.versions", 160, 8000, 8),
+            # which rows ARE the header: the resolution of name / type / note / data rows and lines over the three
+            # levels, every option's presence varied independently (a type row read from a data row makes the schema
+            # depend on data)
+            ("corr.parseroptions.mergeHeader", 3000, 200000),
         ],
         "assumptions": [
             "modelled: protogen's default-mode header parser (see C17); the exporter's positional numbering (tagid := i + 1) is read off exporter.go and exercised by the e2e stream through the parsed descriptors, not modelled",
@@ -196,7 +200,7 @@ PROPS = {
         "lean_modules": ["TableauVerif.Props.C16", "TableauVerif.Props.C16Pools"],
         "oracles": ["c16.hist"],
         "streams": [
-            ("e2e.C16.history", 140, 1200, 8),
+            ("e2e.C16.history", 160, 1400, 8),
         ],
         "assumptions": [
             "every history is executed in ONE child process and its last call again in a FRESH child process (real GenProto/GenConf on generated inputs that reuse package, workbook, sheet, enum and column names); observation = files written (hashes) or error code of the last call",
@@ -277,6 +281,7 @@ PROPS = {
         # the same ops once more through a harness built with Go's race detector: an unsynchronised access to shared
         # state on an exercised path ends the worker and fails the op
         "race_streams": [
+            ("replay.C05.typeinfos", 2, 8, 1),
             ("e2e.C05", 12, 200, 4),
             ("e2e.C13.dryrun", 12, 300, 4),
             ("e2e.C11.merge", 16, 400, 4),
@@ -307,7 +312,7 @@ PROPS = {
     },
     "C12": {
         "lean_modules": ["TableauVerif.Props.C12", "TableauVerif.Props.C12Contig"],
-        "oracles": ["c12.range", "c12.contig", "c01.rt", "c12.refer", "doc.parse"],
+        "oracles": ["c12.range", "c12.contig", "c01.rt", "c12.refer", "doc.parse", "c12.seq"],
         "streams": [
             ("corr.fieldprop.range", 12000, 400000),
             ("e2e.C12.contiguity", 1200, 60000),
@@ -316,6 +321,7 @@ PROPS = {
             # the specification must be accepted with exactly their data (deduced uniqueness, contiguity, sizes)
             ("e2e.C01.roundtrip", 4000, 150000),
             ("e2e.C12.refer", 300, 12000),
+            ("e2e.C12.sequence", 300, 12000),
             # uniqueness in documents: the document parser model (incl. E2005 on map nodes and keyed lists) against
             # the real one; o.doc.parse judges the clear case (a unique map stating one key text twice)
             ("corr.confgen.docParse", 6000, 200000),
